@@ -31,7 +31,7 @@ ASSUMPTIONS = ["backwards clock jumps are not injected (the property speaks of e
                "with a ticking clock the +-1us boundary classes are widened to +-16us and verdicts inside the band are withheld",
                "real-time cross-check is left to the repository's own three sleep-based tests"]
 FAULT_KINDS = ["preemption", "clock_gap_at_boundary", "clock_tick_between_reads", "expiry"]
-PROBES = ["stream_left_open_across_the_deadline", "zero_timeout_instance", "two_creations_together", "batch_of_instances", "two_sweeping_requests_together", "access_concurrent_with_sweep", "due_instance_accessed_during_a_sweep", "slow_release_of_expired_instances", "save_state_between_accesses", "created_via_start_instances", "expired_exactly_at_boundary", "alive_one_us_before_boundary", "restored_from_adapter",
+PROBES = ["slow_bptk_factory", "stream_left_open_across_the_deadline", "zero_timeout_instance", "two_creations_together", "batch_of_instances", "two_sweeping_requests_together", "access_concurrent_with_sweep", "due_instance_accessed_during_a_sweep", "slow_release_of_expired_instances", "save_state_between_accesses", "created_via_start_instances", "expired_exactly_at_boundary", "alive_one_us_before_boundary", "restored_from_adapter",
           "refused_after_expiry", "self_access_after_expiry_before_sweep", "swept_by_other_access",
           "swept_by_create", "swept_by_metrics", "keepalive_restore"]
 EXHAUSTIVE = {"quick": False, "thorough": False}
@@ -96,10 +96,29 @@ def slow_sweep_pattern(rng):
             "events": events}
 
 
+def slow_factory_pattern(rng):
+    """building the instance's bptk takes a good part of the time-out: the instance exists - and its timer starts - when it has
+    been built, so it is still there one time-out minus a little after its id was handed out"""
+    cost = rng.choice([2, 4]) * 10**6
+    tsec = rng.choice([6, 10])
+    events = [{"gap_us": 0, "op": "create", "timeout": {"hours": 1}, "session": True, "via": "single"},
+              {"gap_us": 10**6, "op": "create", "timeout": {"seconds": tsec}, "session": False, "via": "single"}]
+    # measured from the END of the creation: inside the time-out, but later than time-out minus building time
+    events.append({"gap_us": tsec * 10**6 - rng.choice([1, 10**6, cost // 2]), "op": rng.choice(["metrics", "full_metrics"])})
+    events.append({"gap_us": 0, "op": "access", "inst": 1, "kind": rng.choice(["keep_alive", "session_results"])})
+    events.append({"gap_us": tsec * 10**6, "op": "full_metrics"})
+    return {"property": PROPERTY,
+            "config": {"adapter": None, "clock_ticks": None, "destroy_cost_us": 0, "factory_cost_us": cost,
+                       "model": {"template": "T1", "start": 1.0, "stop": 400.0, "dt": 1.0, "managers": {"smA": {"base": {}}}}},
+            "events": events}
+
+
 def generate(spec):
     rng = random.Random(spec["seed"])
     if rng.random() < 0.08:
         return slow_sweep_pattern(rng)
+    if rng.random() < 0.05:
+        return slow_factory_pattern(rng)
     ticks = None
     if rng.random() < 0.25:
         ticks = [rng.choice([0, 0, 1]) for _ in range(rng.choice([3, 5, 7]))]
@@ -217,7 +236,7 @@ def execute(case):
     if cfg.get("destroy_cost_us"):
         res.probe("slow_release_of_expired_instances")
     with ServerWorld({"model": cfg["model"], "adapter": adapter, "clock_ticks": ticks, "threads": "auto" if conc else "serial",
-                      "destroy_cost_us": cfg.get("destroy_cost_us", 0)}, log, res) as w:
+                      "destroy_cost_us": cfg.get("destroy_cost_us", 0), "factory_cost_us": cfg.get("factory_cost_us", 0)}, log, res) as w:
         w.boot()
         clk = w.clock
         held_streams = []
@@ -304,6 +323,8 @@ def execute(case):
                 i.id = r.body["instance_uuid"]
                 i.T = timeout_us(ev["timeout"])
                 i.lo, i.hi = t0, t1
+                if cfg.get("factory_cost_us") and not ticks:
+                    i.lo = t1       # the instance exists when it has been built: that is when the creation request returns
                 i.state = "alive"
                 i.ext = False
                 i.session = False
